@@ -590,7 +590,9 @@ fn scenario_sm(run: &mut Run, len: u64, all_snaps: bool) {
 
 fn scenario_log(run: &mut Run, steps: u64, disciplined: bool) {
     run.close_all();
-    run.ctx.directive("new log");
+    // `d`: the calls follow openraft's full log discipline (consecutive appends right after the last log id,
+    // monotone purges) — the judge then also requires a log without holes; `u`: overwrites, gaps, purges anywhere
+    run.ctx.directive(if disciplined { "new log d" } else { "new log u" });
     let rocks = run.ctx.rng.chance(1, 2);
     run.open("a", rocks);
     // harness-side bookkeeping only to generate mostly well-formed calls
